@@ -60,168 +60,7 @@ func runC08(c *Ctx) {
 		return
 	}
 
-	// ---------------------------------------------------------------- R1
-	c.Rule("C08-R1", "checkWriter.Write: the underlying write is dominated by the hash update of the same buffer, by the false edge of the overflow test and by the nil edge of the sticky error; when the write reaches the expected size every path to it passes the digest comparison on its match edge; the byte counter advances only by the underlying write's count")
-	if f := c.Fn("C08-R1", blobPkg, "checkWriter.Write"); f != nil {
-		g := c.G(f)
-		key := f.Key()
-		recvWrite := func(field *types.Var) []core.Hit {
-			return g.Find(func(n ast.Node) bool {
-				call, ok := n.(*ast.CallExpr)
-				if !ok {
-					return false
-				}
-				se, ok := ast.Unparen(call.Fun).(*ast.SelectorExpr)
-				if !ok || se.Sel.Name != "Write" {
-					return false
-				}
-				p := core.PathOf(info, se.X)
-				return p.Valid() && p.Last() == field
-			})
-		}
-		under := recvWrite(fW)
-		hashw := recvWrite(fH)
-		c.Expect("C08-R1", "underlying w.w.Write calls", len(under), 1)
-		c.Expect("C08-R1", "hash w.h.Write calls", len(hashw), 1)
-		for _, u := range under {
-			uc := u.Node.(*ast.CallExpr)
-			// (a) hash update of the same buffer dominates
-			okHash := false
-			for _, h := range hashw {
-				hc := h.Node.(*ast.CallExpr)
-				if g.Dominates(h.Loc, u.Loc) && h.Loc != u.Loc && len(hc.Args) == 1 && len(uc.Args) == 1 {
-					pa, pb := core.PathOf(info, hc.Args[0]), core.PathOf(info, uc.Args[0])
-					if pa.Valid() && pa.Key() == pb.Key() {
-						if ok, _ := g.OnSuccessOf(h, u.Loc); ok {
-							okHash = true
-						}
-					}
-				}
-			}
-			c.Check("C08-R1", key+" write:w.w dominated-by hash-update", c.Pos(u.Node), okHash, "underlying write must come after w.h.Write of the same buffer, on its nil-error edge")
-			// (b) overflow test false edge, (c) sticky error nil edge
-			okOver, okSticky := false, false
-			for _, a := range g.AtomsAt(u.Loc) {
-				if be, ok := ast.Unparen(a.Expr).(*ast.BinaryExpr); ok {
-					l, r := core.UsesField(info, be.X, fSize), core.UsesField(info, be.Y, fSize)
-					switch {
-					case be.Op == token.GTR && r && !l && !a.Val, be.Op == token.LEQ && r && !l && a.Val,
-						be.Op == token.LSS && l && !r && !a.Val, be.Op == token.GEQ && l && !r && a.Val:
-						// the other side must be the prospective size n+len(p)
-						other := be.X
-						if l {
-							other = be.Y
-						}
-						if derivesFromFieldAndLen(g, other, fN) {
-							okOver = true
-						}
-					}
-				}
-				if x, eq, ok := core.IsNilCheck(info, a.Expr); ok && core.UsesField(info, x, fErr) && eq == a.Val {
-					okSticky = true
-				}
-			}
-			c.Check("C08-R1", key+" write:w.w behind overflow-test", c.Pos(u.Node), okOver, "underlying write must be on the not-exceeding edge of a comparison of n+len(p) with size")
-			c.Check("C08-R1", key+" write:w.w behind sticky-error", c.Pos(u.Node), okSticky, "underlying write must be on the nil edge of the sticky error test")
-			// (d) digest comparison guards the size-reaching write
-			var eqBlk, digBlk *core.CondBlock
-			cbs := g.CondBlocks()
-			for i := range cbs {
-				cb := &cbs[i]
-				if be, ok := ast.Unparen(cb.Cond).(*ast.BinaryExpr); ok && (be.Op == token.EQL || be.Op == token.GEQ) &&
-					(core.UsesField(info, be.X, fSize) != core.UsesField(info, be.Y, fSize)) {
-					other := be.X
-					if core.UsesField(info, be.X, fSize) {
-						other = be.Y
-					}
-					if derivesFromFieldAndLen(g, other, fN) {
-						eqBlk = cb
-					}
-				}
-				if core.UsesField(info, cb.Cond, fD) && (core.UsesField(info, cb.Cond, fH) || usesVarDerivedFromCallOn(g, cb.Cond, fH, "Sum")) {
-					digBlk = cb
-				}
-			}
-			if eqBlk == nil || digBlk == nil {
-				c.Violation("C08-R1", key+" digest-test on size-reaching write", c.Pos(f.Decl), "no `n+len(p) == size` branch with a comparison of w.h.Sum against w.d found")
-			} else {
-				// mismatch edge: for `!bytes.Equal(..)` / `bytes.Equal` / `sum != d`: determine which successor is "match"
-				matchIdx := digestMatchEdge(digBlk.Cond)
-				ok := matchIdx >= 0
-				detail := ""
-				if !ok {
-					detail = "cannot tell the match edge of " + core.ExprString(digBlk.Cond)
-				}
-				if ok {
-					// the mismatch edge must not reach the underlying write
-					mis := digBlk.B.Succs[1-matchIdx]
-					reach := false
-					g.Walk(core.StartOf(mis), func(n ast.Node, l core.Loc) bool {
-						if l == u.Loc {
-							reach = true
-						}
-						return reach
-					})
-					if reach {
-						ok, detail = false, "the digest-mismatch edge reaches the underlying write"
-					}
-				}
-				if ok {
-					// every path from the size-reached (true) edge to the underlying write passes the digest test
-					through := true
-					passed := false
-					g.Walk(core.StartOf(eqBlk.B.Succs[0]), func(n ast.Node, l core.Loc) bool {
-						if l.B == digBlk.B && l.I == len(g.Nodes(l.B))-1 {
-							passed = true
-							return true
-						}
-						if l == u.Loc {
-							through = false
-						}
-						return false
-					})
-					// the digest test could be the first node of the true block itself
-					if !through || !passed {
-						ok, detail = false, "a path from the size-reached edge to the underlying write bypasses the digest comparison"
-					}
-					if !g.Dominates(g.CondLoc(eqBlk.B), u.Loc) {
-						ok, detail = false, "size-reached test does not dominate the underlying write"
-					}
-				}
-				c.Check("C08-R1", key+" digest-test on size-reaching write", c.Pos(digBlk.Cond), ok, detail)
-			}
-		}
-		// (e) stores to checkWriter.n anywhere in the package
-		stores := 0
-		for _, fn := range c.P.FuncsOf(blobPkg) {
-			gg := c.G(fn)
-			for _, h := range gg.Find(func(n ast.Node) bool {
-				switch s := n.(type) {
-				case *ast.AssignStmt:
-					for _, l := range s.Lhs {
-						if core.FieldVar(info, l) == fN {
-							return true
-						}
-					}
-				case *ast.IncDecStmt:
-					return core.FieldVar(info, s.X) == fN
-				}
-				return false
-			}) {
-				stores++
-				ok := false
-				if as, isAs := h.Node.(*ast.AssignStmt); isAs && fn.Name == "checkWriter.Write" && as.Tok == token.ADD_ASSIGN && len(under) == 1 {
-					if v := core.ResultVar(info, under[0].Top, under[0].Node.(*ast.CallExpr), 0); v != nil && core.UsesObj(info, as.Rhs[0], v) {
-						ok = true
-					}
-				}
-				c.Check("C08-R1", fn.Key()+" store:checkWriter.n", c.Pos(h.Node), ok, "the byte counter may only be advanced by the count the underlying write returned")
-			}
-		}
-		c.Expect("C08-R1", "stores to checkWriter.n", stores, 1)
-	}
-
-	// ---------------------------------------------------------------- R2
+	ruleCheckWriter(c, "C08-R1")
 	c.Rule("C08-R2", "copyNamedFile: after the copy started, every non-success return passes f.Truncate(0) or os.Remove(name); the success return is behind the nil edge of io.Copy, the false edge of the short-count test and a successful Close; the only success returns before the copy are the size-equality shortcut and the zero-size case")
 	if f := c.Fn("C08-R2", blobPkg, "DiskCache.copyNamedFile"); f != nil {
 		g := c.G(f)
@@ -643,6 +482,199 @@ func paramObj(f *core.Func, name string) types.Object {
 			if n.Name == name {
 				return f.Info().Defs[n]
 			}
+		}
+	}
+	return nil
+}
+
+// ruleCheckWriter is C08-R1; C09 re-runs it under its own id because the chunked pull path
+// relies on the same writer (Chunker.Put has no truncate-on-error behind it).
+func ruleCheckWriter(c *Ctx, rule string) {
+	info := c.P.Pkgs[blobPkg].TypesInfo
+	fN := c.P.LookupField(blobPkg, "checkWriter", "n")
+	fSize := c.P.LookupField(blobPkg, "checkWriter", "size")
+	fW := c.P.LookupField(blobPkg, "checkWriter", "w")
+	fH := c.P.LookupField(blobPkg, "checkWriter", "h")
+	fD := c.P.LookupField(blobPkg, "checkWriter", "d")
+	fErr := c.P.LookupField(blobPkg, "checkWriter", "err")
+	if fN == nil || fSize == nil || fW == nil || fH == nil || fD == nil || fErr == nil {
+		c.Undecided(rule, "anchor:type checkWriter", "-", "anchor lost: checkWriter{n,size,w,h,d,err}")
+		return
+	}
+
+	// ---------------------------------------------------------------- R1
+	c.Rule(rule, "checkWriter.Write: the underlying write is dominated by the hash update of the same buffer, by the false edge of the overflow test and by the nil edge of the sticky error; when the write reaches the expected size every path to it passes the digest comparison on its match edge; the byte counter advances only by the underlying write's count")
+	if f := c.Fn(rule, blobPkg, "checkWriter.Write"); f != nil {
+		g := c.G(f)
+		key := f.Key()
+		recvWrite := func(field *types.Var) []core.Hit {
+			return g.Find(func(n ast.Node) bool {
+				call, ok := n.(*ast.CallExpr)
+				if !ok {
+					return false
+				}
+				se, ok := ast.Unparen(call.Fun).(*ast.SelectorExpr)
+				if !ok || se.Sel.Name != "Write" {
+					return false
+				}
+				p := core.PathOf(info, se.X)
+				return p.Valid() && p.Last() == field
+			})
+		}
+		under := recvWrite(fW)
+		hashw := recvWrite(fH)
+		c.Expect(rule, "underlying w.w.Write calls", len(under), 1)
+		c.Expect(rule, "hash w.h.Write calls", len(hashw), 1)
+		for _, u := range under {
+			uc := u.Node.(*ast.CallExpr)
+			// (a) hash update of the same buffer dominates
+			okHash := false
+			for _, h := range hashw {
+				hc := h.Node.(*ast.CallExpr)
+				if g.Dominates(h.Loc, u.Loc) && h.Loc != u.Loc && len(hc.Args) == 1 && len(uc.Args) == 1 {
+					pa, pb := core.PathOf(info, hc.Args[0]), core.PathOf(info, uc.Args[0])
+					if pa.Valid() && pa.Key() == pb.Key() {
+						if ok, _ := g.OnSuccessOf(h, u.Loc); ok {
+							okHash = true
+						}
+					}
+				}
+			}
+			c.Check(rule, key+" write:w.w dominated-by hash-update", c.Pos(u.Node), okHash, "underlying write must come after w.h.Write of the same buffer, on its nil-error edge")
+			// (b) overflow test false edge, (c) sticky error nil edge
+			okOver, okSticky := false, false
+			for _, a := range g.AtomsAt(u.Loc) {
+				if be, ok := ast.Unparen(a.Expr).(*ast.BinaryExpr); ok {
+					l, r := core.UsesField(info, be.X, fSize), core.UsesField(info, be.Y, fSize)
+					switch {
+					case be.Op == token.GTR && r && !l && !a.Val, be.Op == token.LEQ && r && !l && a.Val,
+						be.Op == token.LSS && l && !r && !a.Val, be.Op == token.GEQ && l && !r && a.Val:
+						// the other side must be the prospective size n+len(p)
+						other := be.X
+						if l {
+							other = be.Y
+						}
+						if derivesFromFieldAndLen(g, other, fN) {
+							okOver = true
+						}
+					}
+				}
+				if x, eq, ok := core.IsNilCheck(info, a.Expr); ok && core.UsesField(info, x, fErr) && eq == a.Val {
+					okSticky = true
+				}
+			}
+			c.Check(rule, key+" write:w.w behind overflow-test", c.Pos(u.Node), okOver, "underlying write must be on the not-exceeding edge of a comparison of n+len(p) with size")
+			c.Check(rule, key+" write:w.w behind sticky-error", c.Pos(u.Node), okSticky, "underlying write must be on the nil edge of the sticky error test")
+			// (d) digest comparison guards the size-reaching write
+			var eqBlk, digBlk *core.CondBlock
+			cbs := g.CondBlocks()
+			for i := range cbs {
+				cb := &cbs[i]
+				if be, ok := ast.Unparen(cb.Cond).(*ast.BinaryExpr); ok && (be.Op == token.EQL || be.Op == token.GEQ) &&
+					(core.UsesField(info, be.X, fSize) != core.UsesField(info, be.Y, fSize)) {
+					other := be.X
+					if core.UsesField(info, be.X, fSize) {
+						other = be.Y
+					}
+					if derivesFromFieldAndLen(g, other, fN) {
+						eqBlk = cb
+					}
+				}
+				if core.UsesField(info, cb.Cond, fD) && (core.UsesField(info, cb.Cond, fH) || usesVarDerivedFromCallOn(g, cb.Cond, fH, "Sum")) {
+					digBlk = cb
+				}
+			}
+			if eqBlk == nil || digBlk == nil {
+				c.Violation(rule, key+" digest-test on size-reaching write", c.Pos(f.Decl), "no `n+len(p) == size` branch with a comparison of w.h.Sum against w.d found")
+			} else {
+				// mismatch edge: for `!bytes.Equal(..)` / `bytes.Equal` / `sum != d`: determine which successor is "match"
+				matchIdx := digestMatchEdge(digBlk.Cond)
+				ok := matchIdx >= 0
+				detail := ""
+				if !ok {
+					detail = "cannot tell the match edge of " + core.ExprString(digBlk.Cond)
+				}
+				if ok {
+					// the mismatch edge must not reach the underlying write
+					mis := digBlk.B.Succs[1-matchIdx]
+					reach := false
+					g.Walk(core.StartOf(mis), func(n ast.Node, l core.Loc) bool {
+						if l == u.Loc {
+							reach = true
+						}
+						return reach
+					})
+					if reach {
+						ok, detail = false, "the digest-mismatch edge reaches the underlying write"
+					}
+				}
+				if ok {
+					// every path from the size-reached (true) edge to the underlying write passes the digest test
+					through := true
+					passed := false
+					g.Walk(core.StartOf(eqBlk.B.Succs[0]), func(n ast.Node, l core.Loc) bool {
+						if l.B == digBlk.B && l.I == len(g.Nodes(l.B))-1 {
+							passed = true
+							return true
+						}
+						if l == u.Loc {
+							through = false
+						}
+						return false
+					})
+					// the digest test could be the first node of the true block itself
+					if !through || !passed {
+						ok, detail = false, "a path from the size-reached edge to the underlying write bypasses the digest comparison"
+					}
+					if !g.Dominates(g.CondLoc(eqBlk.B), u.Loc) {
+						ok, detail = false, "size-reached test does not dominate the underlying write"
+					}
+				}
+				c.Check(rule, key+" digest-test on size-reaching write", c.Pos(digBlk.Cond), ok, detail)
+			}
+		}
+		// (e) stores to checkWriter.n anywhere in the package
+		stores := 0
+		for _, fn := range c.P.FuncsOf(blobPkg) {
+			gg := c.G(fn)
+			for _, h := range gg.Find(func(n ast.Node) bool {
+				switch s := n.(type) {
+				case *ast.AssignStmt:
+					for _, l := range s.Lhs {
+						if core.FieldVar(info, l) == fN {
+							return true
+						}
+					}
+				case *ast.IncDecStmt:
+					return core.FieldVar(info, s.X) == fN
+				}
+				return false
+			}) {
+				stores++
+				ok := false
+				if as, isAs := h.Node.(*ast.AssignStmt); isAs && fn.Name == "checkWriter.Write" && as.Tok == token.ADD_ASSIGN && len(under) == 1 {
+					if v := core.ResultVar(info, under[0].Top, under[0].Node.(*ast.CallExpr), 0); v != nil && core.UsesObj(info, as.Rhs[0], v) {
+						ok = true
+					}
+				}
+				c.Check(rule, fn.Key()+" store:checkWriter.n", c.Pos(h.Node), ok, "the byte counter may only be advanced by the count the underlying write returned")
+			}
+		}
+		c.Expect(rule, "stores to checkWriter.n", stores, 1)
+	}
+
+	// ---------------------------------------------------------------- R2
+}
+
+// paramAt returns the object of the i-th parameter (counting names across grouped fields).
+func paramAt(f *core.Func, i int) types.Object {
+	k := 0
+	for _, fl := range f.Type.Params.List {
+		for _, n := range fl.Names {
+			if k == i {
+				return f.Info().Defs[n]
+			}
+			k++
 		}
 	}
 	return nil
